@@ -1913,6 +1913,21 @@ func emitStruct() {
 		hsRegs = []string{"unrecognised"}
 	}
 	e.f("/-- `Client.handshake`: the CEA / DWA handlers registered on the state machine's mux -/\ndef handshakeAnswerHandlers : List String := %s\n", strList(hsRegs))
+	// server.go: which functions perform a TLS handshake (it belongs to the connection's own
+	// goroutine; in the accept loop a peer that never finishes it would stall the listener)
+	var hsSites []string
+	for _, d := range srv.Decls {
+		if fd, ok := d.(*ast.FuncDecl); ok && fd.Body != nil {
+			if len(callsOf(fd, "Handshake")) > 0 || len(callsOf(fd, "HandshakeContext")) > 0 {
+				recv := ""
+				if fd.Recv != nil && len(fd.Recv.List) > 0 {
+					recv = strings.TrimPrefix(exprString(fd.Recv.List[0].Type), "*") + "."
+				}
+				hsSites = append(hsSites, recv+fd.Name.Name)
+			}
+		}
+	}
+	e.f("/-- functions of server.go that call a TLS `Handshake` -/\ndef tlsHandshakeSites : List String := %s\n", strList(hsSites))
 	e.f("end Gen\n")
 	e.write("Struct.lean")
 }
